@@ -73,6 +73,7 @@ def decode(data: bytes):
         "allow_missing": fdp.ConsumeBool(),
         "allow_extra": fdp.ConsumeBool(),
         "entry": "from_df" if fdp.ConsumeBool() else "set_values_from_df",
+        "dup_index": fdp.ConsumeBool(),
     }
 
 
